@@ -69,6 +69,7 @@ const concretePrelude = `
 import (
 	"encoding/json"
 	"fmt"
+	"math"
 	"os"
 	"reflect"
 	"testing"
@@ -99,6 +100,7 @@ func zzNondetU16(tag string) uint16 { _, v := zzpNext(tag); return uint16(v) }
 func zzNondetU32(tag string) uint32 { _, v := zzpNext(tag); return uint32(v) }
 func zzNondetU64(tag string) uint64 { _, v := zzpNext(tag); return v }
 func zzNondetInt(tag string) int    { _, v := zzpNext(tag); return int(v) }
+func zzNondetF32(tag string) float32 { _, v := zzpNext(tag); return float32(math.Float64frombits(v)) }
 func zzNondetBits(tag string, n int) string {
 	name, _ := zzpNext(tag)
 	b := make([]byte, n)
@@ -132,6 +134,7 @@ func zzAssert(tag string, c bool) {
 func zzReach(tag string)                 { zzpReached = append(zzpReached, tag) }
 func zzExport(tag string, v interface{}) { fmt.Printf("ZZ-EXPORT %s = %v\n", tag, v) }
 func zzConcrete(v int) int               { return v }
+func zzNative() bool                     { return true }
 func zzUnsupported(msg string)           {}
 func zzIsSymbolic(v int) bool            { return false }
 func zzSchedule(reverse bool)            {}
